@@ -69,6 +69,29 @@ def candidates(fn):
     return out
 
 
+def opt_candidates(fn):
+    """operators aimed at what the properties say about an optimizer (not at its numeric kernel): dropped greedy selection, dropped copies, shifted slices and
+    ranges, dropped (re)initialisation of a field, dropped append / extend, a population helper's size argument +-1"""
+    out = []
+    for i, n in enumerate(ast.walk(fn)):
+        if isinstance(n, ast.Call) and isinstance(n.func, ast.Attribute):
+            a = n.func.attr
+            if a == "_greedy_select_agent" and len(n.args) == 2: out.append((i, "dropgreedy", 0)); out.append((i, "dropgreedy", 1))
+            if a in ("copy", "model_copy") and not n.args and not n.keywords: out.append((i, "dropcopy", 0))
+            if a in ("_extend_and_trim_population", "_replace_and_trim_population", "_greedy_select_population", "_generate_agents", "_generate_group_population") and n.args:
+                out.append((i, "dropcall", 0))
+        if isinstance(n, ast.Call) and isinstance(n.func, ast.Name):
+            if n.func.id == "deepcopy" and len(n.args) == 1: out.append((i, "dropcopy", 0))
+            if n.func.id == "range" and n.args: out.append((i, "rangeshrink", 0)); out.append((i, "rangeshrink", 1))
+            if n.func.id in ("sort_by_cost", "sort_and_trim", "best_agents", "worst_agents") and len(n.args) >= 2: out.append((i, "sizearg", 0))
+        if isinstance(n, ast.Slice) and (n.lower is not None or n.upper is not None): out.append((i, "slice", 0))
+        if isinstance(n, ast.Assign) and any(isinstance(t, ast.Attribute) and isinstance(t.value, ast.Name) and t.value.id == "self" for t in n.targets): out.append((i, "dropstmt", 0))
+        if isinstance(n, ast.Expr) and isinstance(n.value, ast.Call) and isinstance(n.value.func, ast.Attribute) and n.value.func.attr in ("append", "extend"):
+            out.append((i, "dropstmt", 0))
+        if isinstance(n, ast.AugAssign) and isinstance(n.target, ast.Name) and isinstance(n.op, ast.Add) and isinstance(n.value, (ast.List, ast.ListComp, ast.Name)): out.append((i, "dropstmt", 0))
+    return out
+
+
 def mutate_fn(fn, idx, kind, detail):
     nodes = list(ast.walk(fn))
     n = nodes[idx]
@@ -89,6 +112,20 @@ def mutate_fn(fn, idx, kind, detail):
         tgt = "upper" if n.upper is not None else "lower"
         setattr(n, tgt, ast.BinOp(left=getattr(n, tgt), op=ast.Add(), right=ast.Constant(value=1)))
     elif kind == "addsub": n.op = ast.Sub() if isinstance(n.op, ast.Add) else ast.Add()
+    elif kind in ("dropgreedy", "dropcopy", "dropcall"):
+        repl = n.args[detail] if kind == "dropgreedy" else (n.args[0] if (kind == "dropcall" or isinstance(n.func, ast.Name)) else n.func.value)
+        for p in nodes:
+            for f, v in ast.iter_fields(p):
+                if v is n: setattr(p, f, repl)
+                elif isinstance(v, list) and n in v: v[v.index(n)] = repl
+    elif kind == "rangeshrink":
+        if detail == 0 or len(n.args) == 1:      # one element fewer at the end
+            k = 0 if len(n.args) == 1 else 1
+            n.args[k] = ast.BinOp(left=n.args[k], op=ast.Sub(), right=ast.Constant(value=1))
+        else:                                    # one element fewer at the start
+            n.args[0] = ast.BinOp(left=n.args[0], op=ast.Add(), right=ast.Constant(value=1))
+    elif kind == "sizearg":
+        n.args[1] = ast.BinOp(left=n.args[1], op=ast.Add(), right=ast.Constant(value=1))
     elif kind == "dropstmt":
         for p in nodes:
             for f, v in ast.iter_fields(p):
@@ -97,13 +134,18 @@ def mutate_fn(fn, idx, kind, detail):
     ast.fix_missing_locations(fn)
 
 
-def enumerate_sites(repo: Path):
+def enumerate_sites(repo: Path, scope="framework"):
     sites = []
-    for f in FILES:
+    if scope == "optimizers":
+        files = sorted(str(p.relative_to(repo / "pyvolutionary")) for p in (repo / "pyvolutionary").glob("*/*.py") if p.name not in ("__init__.py", "params.py", "models.py"))
+    else:
+        files = FILES
+    for f in files:
         tree = ast.parse((repo / "pyvolutionary" / f).read_text())
         for name, fn in functions(tree):
             if name.split(".")[-1] in SKIP_FUNCS: continue
-            for idx, kind, detail in candidates(fn):
+            if scope == "optimizers" and "." not in name: continue
+            for idx, kind, detail in (opt_candidates(fn) if scope == "optimizers" else candidates(fn)):
                 node = list(ast.walk(fn))[idx]
                 sites.append({"file": f, "func": name, "idx": idx, "kind": kind, "detail": detail, "line": getattr(node, "lineno", fn.lineno),
                               "was": ast.unparse(node)[:80] if not isinstance(node, ast.Slice) else ast.unparse(node)})
@@ -125,17 +167,19 @@ def apply(repo: Path, m: dict) -> str:
     return orig
 
 
-def sample(repo: Path, seed: int, n: int):
-    sites = enumerate_sites(repo)
+def sample(repo: Path, seed: int, n: int, scope="framework"):
+    sites = enumerate_sites(repo, scope)
     r = random.Random(seed)
     r.shuffle(sites)
-    # stratify: at most ceil(n/len(FILES))+2 per file first, then fill up
-    per = {}
+    # stratify: a cap per file (framework) / per file and per operator kind (optimizers), then fill up
+    per, perk = {}, {}
     out = []
-    cap = n // len(FILES) + 3
+    nfiles = len({s["file"] for s in sites})
+    cap = n // max(nfiles, 1) + (3 if scope == "framework" else 1)
+    kcap = n if scope == "framework" else n // 5 + 1
     for s in sites:
-        if per.get(s["file"], 0) < cap and len(out) < n:
-            out.append(s); per[s["file"]] = per.get(s["file"], 0) + 1
+        if per.get(s["file"], 0) < cap and perk.get(s["kind"], 0) < kcap and len(out) < n:
+            out.append(s); per[s["file"]] = per.get(s["file"], 0) + 1; perk[s["kind"]] = perk.get(s["kind"], 0) + 1
     return out, len(sites)
 
 
@@ -143,9 +187,9 @@ def main():
     a = sys.argv[1:]
     opt = lambda name, default: (a[a.index(name) + 1] if name in a else default)
     cmd, repo = a[0], Path(a[1])
-    seed, n = int(opt("--seed", 1)), int(opt("--n", 64))
+    seed, n, scope = int(opt("--seed", 1)), int(opt("--n", 64)), opt("--scope", "framework")
     if cmd == "list":
-        ms, total = sample(repo, seed, n)
+        ms, total = sample(repo, seed, n, scope)
         print(f"# {total} mutation sites; sample of {len(ms)} (seed {seed})", file=sys.stderr)
         for m in ms: print(json.dumps(m))
     elif cmd == "apply":
@@ -154,7 +198,7 @@ def main():
         k, of = int(a[2]), int(a[3])
         out = Path(opt("--out", f"mutants_{k}.jsonl"))
         verif = Path(__file__).resolve().parent.parent
-        ms, total = sample(repo, seed, n)
+        ms, total = sample(repo, seed, n, scope)
         mine = [m for i, m in enumerate(ms) if i % of == k]
         env = dict(os.environ, PV_REPO=str(repo))
         for m in mine:
